@@ -15,7 +15,7 @@ from ..cfront import CNode, CUnit, expand_calls, strip, text
 from ..core import AnalysisError, Loc, Report, Source, norm
 from ..heapzone import analyse_heap
 from ..orderings import CELLS, cmp_holds, lex_expected
-from ..guards import path_conditions
+from ..guards import atoms, path_conditions
 from ..normalize import canon, flat
 from ..resolve import Resolver
 from ..pyfront import Program, body_without_docstring, const_value, param_names, self_attr
@@ -590,6 +590,14 @@ def check_heap_scheduler(src: Source, rep: Report, unit: CUnit) -> None:
             attrs_ = [self_attr(RP.res(sd)) for sd in sides if self_attr(RP.res(sd))]
             if names & ins_vars and attrs_:
                 bytes_attr = attrs_[0]
+    if bytes_attr is None:
+        # however the sizes are compared: the count is the attribute that push_event updates with the value the insert returned
+        ins_vars = {t.id for a in ast.walk(push) if isinstance(a, ast.Assign) and _lib_calls(a.value, aliases, "insert")
+                    for t in a.targets if isinstance(t, ast.Name)}
+        upd = {self_attr(a.targets[0]) for a in ast.walk(push) if isinstance(a, ast.Assign) and self_attr(a.targets[0])
+               and isinstance(a.value, ast.Name) and a.value.id in ins_vars}
+        if len(upd) == 1:
+            bytes_attr = upd.pop()
     heap_attr = self_attr(inserts[0].args[0]) if inserts and inserts[0].args else None
     if bytes_attr and heap_attr:
         for mname, m in M.items():
@@ -803,6 +811,11 @@ def check_heap_scheduler(src: Source, rep: Report, unit: CUnit) -> None:
             sims = [_simulate_dump(gs, aliases, appends[0], n_) for n_ in (0, 1, 3)]
             if all(x is True for x in sims):
                 iterates = True
+        if not unconditional and appends and ent:
+            # a run that follows every condition on the way to the append (an untracked condition makes it undecidable) and files
+            # entry(0 .. n-1) for every model heap has no filter between fetching and filing
+            if all(_simulate_dump(gs, aliases, appends[0], n_) is True for n_ in (0, 1, 3)):
+                unconditional = True
         rep.ob("R6.6-dump-every-entry", unconditional, Loc(HEAP_PY, gs.lineno, f"{cls.name}.__getstate__"),
                "heap_entries.append(...) unconditionally for every entry returned by the heap",
                "every entry still stored in the C heap must be pickled (also trashed ones and ones tied with the last returned time): "
@@ -867,7 +880,24 @@ def check_list_scheduler(src: Source, rep: Report) -> None:
            "trash_event must remove exactly the element of the trashed handler")
     tr = M["trash_event"]
     rem = [n for n in ast.walk(tr) if isinstance(n, ast.Call) and isinstance(n.func, ast.Attribute) and n.func.attr == "remove"]
-    rep.ob("R6.8-list-trash-removes", len(rem) == 1 and norm(rem[0].args[0]) == param_names(tr)[0],
+    h0 = param_names(tr)[0]
+    ok_rem = len(rem) == 1 and norm(rem[0].args[0]) == h0
+    if not ok_rem:
+        # ... or an explicit scan: the first element whose handler IS the trashed handler is deleted, then the scan stops
+        for lp in [n for n in ast.walk(tr) if isinstance(n, ast.For)]:
+            names_ = [x.id for x in ast.walk(lp.target) if isinstance(x, ast.Name)]
+            for g in [n for n in ast.walk(lp) if isinstance(n, ast.If)]:
+                at = atoms(g.test)
+                hit = any(a_ in (f"{e_}.event_handler is {h0}", f"{h0} is {e_}.event_handler", f"{e_}.event_handler == {h0}", f"{h0} == {e_}.event_handler")
+                          for a_ in at for e_ in names_)
+                deletes = any(isinstance(x, ast.Delete) and any(isinstance(t, ast.Subscript) and self_attr(t.value) for t in x.targets) for x in g.body) or \
+                    any(isinstance(x, ast.Call) and isinstance(x.func, ast.Attribute) and x.func.attr in ("pop", "remove") and self_attr(x.func.value)
+                        for st_ in g.body for x in ast.walk(st_))
+                stops = any(isinstance(x, (ast.Break, ast.Return)) for x in g.body)
+                if hit and deletes and stops and len(at) == 1:
+                    ok_rem = True
+                    ok = True      # removal by identity of the handler is explicit here (no reliance on _Element.__eq__)
+    rep.ob("R6.8-list-trash-removes", ok_rem,
            Loc(LIST_PY, tr.lineno, "ListScheduler.trash_event"), rem[0] if rem else "trash_event", "trash must remove the element")
 
 
